@@ -87,6 +87,20 @@ def pattern_bytes(n, salt=0):
     return bytearray((unit * (n // 256 + 1))[:n])
 
 
+# codes that mean something to a device (and may mean something to the library): page codes with a format of their own, the
+# ATA commands and FEATURES values that pass-through callers actually send
+MEANINGFUL = {
+    ("Inquiry", "page_code"): [0x00, 0x80, 0x83, 0x86, 0x87, 0x88, 0x89, 0x8A, 0x8F, 0xB0, 0xB1, 0xB2, 0xB3, 0xB4, 0xB6, 0xC0],
+    ("ModeSense6", "page_code"): [0x01, 0x02, 0x03, 0x04, 0x08, 0x0A, 0x18, 0x19, 0x1A, 0x1C, 0x1D, 0x2A, 0x3F, 0x00],
+    ("ModeSense10", "page_code"): [0x01, 0x02, 0x03, 0x04, 0x08, 0x0A, 0x18, 0x19, 0x1A, 0x1C, 0x1D, 0x2A, 0x3F, 0x00],
+    ("ModeSense6", "sub_page_code"): [0x00, 0x01, 0x02, 0x03, 0xF1, 0xFF],
+    ("ModeSense10", "sub_page_code"): [0x00, 0x01, 0x02, 0x03, 0xF1, 0xFF],
+    ("ata", "command"): [0xEC, 0xA1, 0xB0, 0x92, 0x93, 0x2F, 0x3F, 0x47, 0x57, 0x25, 0x35, 0x20, 0x30, 0xC8, 0xCA, 0xE5, 0xE7, 0xEA, 0xF1, 0xF2, 0x06, 0x60, 0x61, 0xB4, 0xE0, 0xE1],
+    ("ata", "fetures"): [0x00, 0x01, 0x03, 0x07, 0x0E, 0x0F, 0xD0, 0xD1, 0xD2, 0xD3, 0xD4, 0xD5, 0xD6, 0xD8, 0xD9, 0xDA, 0xDB, 0x02, 0x82, 0xAA, 0x55],
+    ("ata", "lba"): [0xC24F00, 0xC24F01, 0xC24FE0, 0x2CF400, 0x000030, 0x0000E0, 0x4F00C2, 0x000000, 0xFFFFFF],
+}
+
+
 def novel_products(cmd, rng, cap=S.CAP, limit=6000):
     """arguments in which up to three fields at once take integer literals that the library's source has and the recorded
     baseline (vmon/srcdict.py) has not, the rest random: a trigger written as `a == X and b == Y and c == Z` is hit although a
@@ -119,9 +133,10 @@ def novel_products(cmd, rng, cap=S.CAP, limit=6000):
     if cmd.xfer == "ata":
         around = [{"byte_block": bb, "t_type": tt, "t_length": tl_, "blocksize": bs_} for bb in (0, 1) for tt in (0, 1) for tl_ in (0, 1, 2, 3) for bs_ in (512, 4096)
                   if not (bb and tt and tl_ and not bs_)]
+    reps = max(2, min(400, 2400 // max(1, len(combos))))  # few combinations: each is tried with many draws of the other fields
     for force in combos:
         for extra in around:
-            for _rep in range(1 if extra else 2):
+            for _rep in range(1 if extra else reps):
                 f2 = dict(extra, **force)
                 a = random_args(cmd, rng, cap=cap, force=f2)
                 if all(a.get(k) == v for k, v in force.items()):
@@ -138,7 +153,8 @@ def random_args(cmd, rng, cap=S.CAP, force=None):
                 a[name] = rng.choice([0, 0, 512, 520, 4096])
     for name, (kind, width, d) in cmd.args.items():
         if kind == "u":
-            a[name] = gen.rand_value(rng, width)
+            sem = MEANINGFUL.get((cmd.name, name)) or MEANINGFUL.get((cmd.xfer, name))
+            a[name] = rng.choice(sem) if sem and rng.random() < 0.3 else gen.rand_value(rng, width)
         elif kind in ("alloc", "tl", "cdtl"):
             unit = {"alloc": 1, "tl": a.get("blocksize") or 1, "cdtl": 3072}[kind]
             hi = min((1 << width) - 1, cap // unit)
